@@ -35,7 +35,7 @@ func (r rng) n(lo, hi int) int {
 func pick[T any](r rng, xs []T) T { return xs[r.IntN(len(xs))] }
 
 var (
-	qualVals = []string{"q0", "q1", "q2"}
+	qualVals = []string{"q0", "q1", "q2", "Q0", "Q1"}
 	kindVals = []string{"ka", "kb"}
 	funcVals = []string{"SimFnA", "SimFnB"}
 )
